@@ -263,7 +263,7 @@ pub fn check_prog(acc: &mut Acc, p: &Prog, or: Oracles, what: &str) {
                 }
             }
             if or.strip {
-                strip_oracle(acc, p, src, &defs, Ok((pt.text(), d)), &case);
+                strip_oracle(acc, p, src, &defs, Ok((pt, d)), &case);
             }
         }
         (Err(e), Err(ge)) => {
@@ -299,11 +299,49 @@ pub fn check_prog(acc: &mut Acc, p: &Prog, or: Oracles, what: &str) {
 }
 
 pub const SIG_STRIP_P1D: &str = "directive-directly-after-string-or-escaped-identifier-emitted-raw-and-processed";
+/// The known finding F5 is narrow: tokens fuse under strip_comments because a comment, or the white
+/// space attached to a conditional / `undef directive, was their only separator. It is recognised by
+/// repairing the input: with a blank put in front of every comment, behind every block comment and in
+/// front of every conditional / `undef directive the two runs must agree (and the padded plain run must
+/// give the original tokens). Anything else that fuses tokens (e.g. around a macro usage) is not F5.
+fn f5_repaired_input_agrees(src: &str, defs: &Defs, plain_tokens: &[String]) -> bool {
+    let Ok(lx) = lexref::lex_opts(src, true) else { return false };
+    let allowed = ["`ifdef", "`ifndef", "`elsif", "`else", "`endif", "`undef", "`undefineall"];
+    let mut padded = String::new();
+    for l in &lx {
+        let w = &src[l.b..l.e];
+        match l.k {
+            lexref::K::LineCmt => {
+                padded.push(' ');
+                padded.push_str(w);
+            }
+            lexref::K::BlockCmt => {
+                padded.push(' ');
+                padded.push_str(w);
+                padded.push(' ');
+            }
+            lexref::K::Bt if allowed.contains(&w) => {
+                padded.push(' ');
+                padded.push_str(w);
+            }
+            _ => padded.push_str(w),
+        }
+    }
+    let run = |strip: bool| match api::pp_str(&padded, Path::new("top.sv"), defs, &[] as &[PathBuf], false, strip) {
+        Ok(Ok((pt, _))) => Some(sig_lexemes(pt.text())),
+        _ => None,
+    };
+    match (run(false), run(true)) {
+        (Some(a), Some(b)) => a == b && a == plain_tokens,
+        _ => false,
+    }
+}
+
 pub const SIG_STRIP_GLUE: &str = "strip-comments-removes-the-only-separator";
 pub const SIG_STRIP_LITERAL: &str = "strip-comments-keeps-comment-attached-to-string-or-escaped-identifier";
 
 /// C18: the run with strip_comments must agree with the run without
-pub fn strip_oracle(acc: &mut Acc, p: &Prog, src: &str, defs: &Defs, plain: Result<(&str, &Defs), String>, case: &dyn Fn() -> serde_json::Value) {
+pub fn strip_oracle(acc: &mut Acc, p: &Prog, src: &str, defs: &Defs, plain: Result<(&sv_parser::PreprocessedText, &Defs), String>, case: &dyn Fn() -> serde_json::Value) {
     acc.transitions += 1;
     acc.traces += 1;
     let _ = p;
@@ -315,16 +353,20 @@ pub fn strip_oracle(acc: &mut Acc, p: &Prog, src: &str, defs: &Defs, plain: Resu
         }
     };
     match (plain, r) {
-        (Ok((t, d)), Ok((pt, d2))) => {
+        (Ok((plain_pt, d)), Ok((pt, d2))) => {
+            let t = plain_pt.text();
             let a = sig_lexemes(t);
             let b = sig_lexemes(pt.text());
             if a != b {
                 acc.class("violation");
                 // attribution: the only difference is that tokens separated by nothing but a comment
                 // (or by directive-adjacent white space) in the plain output are fused in the stripped one
-                let sig = if a.concat() == b.concat() {
+                let sig = if crate::props::c06::literal_then_directive(src) || crate::props::c06::literal_then_directive(t) {
+                    // (also when the literal meets the usage only inside an expansion: visible in the plain output)
+                    Some(SIG_STRIP_P1D.to_string())
+                } else if a.concat() == b.concat() && f5_repaired_input_agrees(src, defs, &a) {
                     Some(SIG_STRIP_GLUE.to_string())
-                } else if crate::props::c06::literal_then_directive(src) {
+                } else if false {
                     Some(SIG_STRIP_P1D.to_string())
                 } else {
                     None
